@@ -17,7 +17,7 @@ ASSUMPTIONS = [
 ]
 OUTSIDE = ['more than 2 labels in the dense universes (3 labels / 5 monomials in thorough)', 'degree-reducing conversions (C01)', 'float rounding']
 BOUNDS = {'quick': {'functions': '4 conversion functions x (10 model types + raw dict)', 'methods': 'to_qubo/to_quso/to_pubo/to_puso/to_enumerated on the 6 labelled types (no reduction needed)',
-                    'universe': 'dense over 2 labels; raw dicts add (l1,l0), (l0,l0), (l0,l1,l0)', 'set_mapping': 'a 3-cycle on 3 labels', 'exports': 'Q, h/J, matrix_to_qubo, qubo_to_matrix (3x3, ints in [-2,2])'},
+                    'universe': 'dense over 2 labels; raw dicts add (l1,l0), (l0,l0), (l0,l1,l0)', 'set_mapping': 'a 3-cycle on 3 labels; a 2-cycle followed by a new variable', 'exports': 'Q, h/J, matrix_to_qubo, qubo_to_matrix (3x3, ints in [-2,2])'},
           'thorough': {'universe': '3 labels, 5 monomials'}}
 
 
